@@ -317,6 +317,7 @@ fn body(cfg: &Value) -> impl FnMut(&mut Chooser) -> Result<(), String> + '_ {
             let mut moved = std::mem::take(ch);
             let cfg2 = cfg.clone();
             let r = crate::explore::isolated(SEED, move || {
+                let _ = crate::fresh::reset(SEED);
                 let r = choice::scoped(&mut moved, || mc::catch(|| one(&cfg2)).unwrap_or_else(|p| Err(format!("panic :: {p}"))));
                 (moved, r)
             });
